@@ -51,14 +51,24 @@ def reset_process_state(overrides: dict | None = None):
         d[parts[-1]] = v
 
 
-def draw_sim_config(ch, *, allow_threads=True, allow_recompute=True, probes=False, light=False) -> SimConfig:
+def draw_sim_config(ch, *, allow_threads=True, allow_recompute=True, probes=False, light=False, force_threads=False, write_preempt=None) -> SimConfig:
     """swarm: each schedule / fault kind has a per-run enable bit"""
     c = SimConfig(trace_root=TRACE_ROOT)
     c.reorder = ch.bool(0.85, "reorder")
-    if allow_threads and ch.bool(0.2 if light else 0.35, "threads"):
+    if allow_threads and (force_threads or ch.bool(0.2 if light else 0.35, "threads")):
         c.workers = ch.range(2, 4, "workers")
-        hi = ch.pick([5, 40, 200], "qhi")
+        if force_threads or ch.bool(0.4, "qlog"):
+            c.qlog = True
+            hi = ch.pick([1024, 256, 4096], "qhi-log")
+        else:
+            hi = ch.pick([5, 40, 200], "qhi")
         c.qlo, c.qhi = 1, hi
+        if write_preempt if write_preempt is not None else ch.bool(0.4, "write-preempt"):
+            # hand over at stores into shared state (attributes, caches, module globals) rather than after a number of lines:
+            # budgets in write boundaries are heavy-tailed (1 .. 400), so one thread is parked at a store while another runs far
+            c.qlog = False
+            c.qhi = ch.pick([1000, 5000, 200], "wp-qhi")
+            c.whi = ch.pick([3, 5, 3, 10], "whi")
     c.release = not ch.bool(0.3, "keep-all")
     if allow_recompute and ch.bool(0.3, "recompute-on"):
         c.recompute_p = 0.15
